@@ -1,8 +1,65 @@
 """C07 — quorum = floor(2n/3)+1 in node and contracts, BFT-safe."""
 import core, os, subprocess
 
+GRID = r"""From Coq Require Import List ZArith Bool.
+From WH Require Import gen.Extracted gen.ExtractedContractVerify.
+Import ListNotations.
+Open Scope Z_scope.
+(* what the statement asks of a contract, written with the node's own threshold *)
+Definition sol_want (n k vidx curidx exptime now : Z) (sv : bool) : bool :=
+  negb (n =? 0) && negb (negb (vidx =? curidx) && (exptime <? now)) && (go_quorum n <=? k) && sv.
+Definition ral_want (ver vc vidx curidx n k : Z) (gov sg : bool) : bool :=
+  (ver =? vc) && (if gov then vidx =? curidx else true) && negb (n =? 0) && (go_quorum n <=? k) && sg.
+Definition ns : list Z := map Z.of_nat (seq 0 41) ++ [84; 85; 86; 127; 128; 170; 171; 253; 254; 255].
+Definition ks (n : Z) : list Z := let q := go_quorum n in [0; 1; q - 2; q - 1; q; q + 1; n - 1; n; n + 1; 255].
+Definition bs := [true; false].
+Definition solbad := flat_map (fun n => flat_map (fun k => flat_map (fun ic => flat_map (fun tm => flat_map (fun sv =>
+    if (0 <=? k) && negb (Bool.eqb (sol_verifyVM n k (fst ic) (snd ic) (fst tm) (snd tm) sv) (sol_want n k (fst ic) (snd ic) (fst tm) (snd tm) sv))
+    then [(n, k, ic, tm, sv)] else []) bs) [(50, 90); (90, 50)]) [(4, 4); (3, 4)]) (ks n)) ns.
+Definition ralbad := flat_map (fun n => flat_map (fun k => flat_map (fun ic => flat_map (fun gov => flat_map (fun sg => flat_map (fun vv =>
+    if (0 <=? k) && negb (Bool.eqb (ral_parse_and_verify (fst vv) (snd vv) (fst ic) (snd ic) n k gov sg) (ral_want (fst vv) (snd vv) (fst ic) (snd ic) n k gov sg))
+    then [(n, k, ic, gov, sg, vv)] else []) [(1, 1); (2, 1)]) bs) bs) [(4, 4); (3, 4)]) (ks n)) ns.
+Definition SB := Eval vm_compute in firstn 3 solbad.
+Print SB.
+Definition RB := Eval vm_compute in firstn 3 ralbad.
+Print RB.
+Definition CT := Eval vm_compute in (length solbad, length ralbad, length ns).
+Print CT.
+"""
+
+
+def contract_grid(ctx, st):
+    """the translated contract functions evaluated on a grid of (guardian count, signature count, set indices, times, oracle bits): the
+    first inputs on which a contract's decision differs from the node's threshold are the concrete failing inputs (the contracts cannot be
+    executed here; the evaluated terms are regenerated from Messages.sol / governance.ral on every run)"""
+    import re
+    ok, o = core.coq_eval(ctx, "cases_C07_grid", GRID)
+    sb, rb, ct = core.parse_print(o, "SB"), core.parse_print(o, "RB"), core.parse_print(o, "CT")
+    if not ok or sb is None or rb is None:
+        ctx.problem("correspondence", "contract grid evaluation", o[-800:])
+        return
+    ctx.cov["contract_grid"] = {"guardian_counts": 51, "signature_counts_per_n": 10, "sol_cases": 51 * 10 * 2 * 2 * 2, "ral_cases": 51 * 10 * 2 * 2 * 2 * 2,
+                                "sol_verifyVM_reads": ((st.get("sol_verifyvm") or {}).get("info") or {}).get("reads"),
+                                "ral_parse_and_verify_reads": ((st.get("ral_parse_and_verify") or {}).get("info") or {}).get("reads"), "counts": ct}
+    nums = lambda t: [int(x) for x in re.findall(r'-?\d+', t)]
+    for name, txt, src in (("Messages.sol verifyVM", sb, "sol"), ("governance.ral parseAndVerifyVAA", rb, "ral")):
+        items = re.findall(r'\((?:[^()]|\([^()]*\))*\)', txt.replace("%Z", "")) if txt.strip() not in ("[]", "nil") else []
+        for it in items[:1]:
+            v = nums(it)
+            n, k = v[0], v[1]
+            q = 2 * n // 3 + 1
+            verdict = "accepts" if k < q or n == 0 else "decides differently from the node on"
+            if src == "sol":
+                det = "set index of the VM %d, current index %d, expiry %d, block time %d, verifySignatures = %s" % (v[2], v[3], v[4], v[5], "true" in it)
+            else:
+                det = "set index of the VAA %d, guardianSetIndexes[1] %d, flags (isGovernanceVAA, signatures pass) as listed, version byte %d / Version %d" % (v[2], v[3], v[-2], v[-1])
+            ctx.problem("monitor", "%s (translated from the tree) %s a VAA with %d signatures for a set of %d guardians; the node's quorum is %d" % (name, verdict, k, n, q),
+                        det + " ; grid row " + it, concrete=True,
+                        replay={"contract_function": name, "guardian_count": n, "signature_count": k, "node_quorum": q, "row": it, "note": det}, key="contract-verify:" + src)
+
+
 def run(ctx):
-    core.run_extract(ctx, ["quorum_go", "quorum_sol", "quorum_ral"])
+    st = core.run_extract(ctx, ["quorum_go", "quorum_sol", "quorum_ral", "sol_verifyvm", "ral_parse_and_verify"])
     proved = core.coq_prove(ctx, "C07")
     if ctx.tier == "thorough":
         core.coq_thorough_audit(ctx, "C07")
@@ -50,6 +107,7 @@ def run(ctx):
                             replay={"n": n, "note": "evaluate the contract's quorum expression at n"}, key="contract:%d" % n)
     ctx.cov["traces_validated_against_impl"] = len(rows)
     ctx.cov["mismatches"] = len(bad)
+    contract_grid(ctx, st)
     # the explorer's own threshold (explorer-backend/processor verifyVAA, an anchor of this property): decided on real signatures for
     # set sizes n and counts floor(2n/3) / floor(2n/3)+1
     rcx, outx, tracex = core.harness_pkg(ctx, "explorer_processor", "^TestVerifC07Explorer$")
